@@ -88,6 +88,60 @@ fn main() {
             dispatch!(id.as_str(), run_replay, &path)
         }
         "selftest" => verif::selftest::run(),
+        "corpus" => {
+            if args.len() < 3 {
+                usage();
+            }
+            verif::corpus::write_all(&PathBuf::from(&args[2]))
+        }
+        "fuzzcase" => {
+            // verif fuzzcase <target> <file>: re-judge a fuzzer artifact with the non-fuzz binary
+            if args.len() < 4 {
+                usage();
+            }
+            let data = std::fs::read(&args[3]).unwrap_or_else(|e| { eprintln!("{}", e); std::process::exit(2) });
+            let target = args[2].as_str();
+            let prop = verif::fuzzbridge::property_of(target);
+            match verif::fuzzbridge::judge_bytes(target, &data) {
+                Some((sig, msg, case)) => {
+                    let v = json!({"property": prop, "sig": sig, "message": msg, "seed": 0, "tier": "thorough",
+                        "build": if checked_build() { "checked" } else { "release" }, "source": format!("libFuzzer target {}", target), "case": case});
+                    let dir = verif_dir().join("replays");
+                    let _ = std::fs::create_dir_all(&dir);
+                    let text = serde_json::to_string_pretty(&v).unwrap();
+                    let path = dir.join(format!("{}-fuzz-{:016x}.json", prop, hash64(&text)));
+                    let _ = std::fs::write(&path, text);
+                    println!("VIOLATION property={} replay={}", prop, path.display());
+                    println!("  sig={} {}", sig, verif::sut::trunc(&msg, 600));
+                    1
+                }
+                None => {
+                    println!("fuzz artifact {}: property holds on this input (not reproduced)", args[3]);
+                    0
+                }
+            }
+        }
+        "fuzzmerge" => {
+            // verif fuzzmerge <ID> <target> <runs> <corpus_files> <seconds> <crashes>
+            if args.len() < 8 {
+                usage();
+            }
+            let path = verif_dir().join("evidence").join(format!("{}.json", args[2]));
+            let mut ev: serde_json::Value = std::fs::read_to_string(&path).ok().and_then(|t| serde_json::from_str(&t).ok()).unwrap_or(json!({}));
+            let runs: u64 = args[4].parse().unwrap_or(0);
+            if let Some(c) = ev.get_mut("coverage").and_then(|c| c.as_object_mut()) {
+                let e = c.get("evaluations").and_then(|x| x.as_u64()).unwrap_or(0);
+                c.insert("evaluations".into(), json!(e + runs));
+                c.insert("fuzz".into(), json!({"engine": "libFuzzer (cargo-fuzz, sanitizer none, debug assertions + overflow checks on)", "target": args[3], "runs": runs,
+                    "corpus_files_after": args[5].parse::<u64>().unwrap_or(0), "seconds": args[6].parse::<f64>().unwrap_or(0.0), "crash_artifacts": args[7].parse::<u64>().unwrap_or(0),
+                    "note": "same oracle function as the proptest search; fuzz runs are added to evaluations but not to distinct_nontrivial"}));
+            }
+            if let Some(w) = ev.get("wall_s").and_then(|x| x.as_f64()) {
+                ev["wall_s"] = json!(w + args[6].parse::<f64>().unwrap_or(0.0));
+            }
+            let _ = std::fs::write(&path, serde_json::to_string_pretty(&ev).unwrap());
+            0
+        }
         _ => usage(),
     };
     std::process::exit(code);
